@@ -43,6 +43,19 @@ def stepViolations (o : Obs) : List String :=
      (if o.next' ≤ o.now + p * (1 + absR o.jitter / 2) + tolJ then [] else ["one_period_ahead"])
    else [])
 
+/-- "for any period of at least a microsecond": the constructor must accept it (`obs = none`: it raised).  Whether
+the object then *uses* the requested period is demanded by `stepViolations` evaluated with the requested period. -/
+def ctorViolations (p : Period) (obs : Option Rat) : List String :=
+  if 1 / 1000 ≤ p.requestedMs then (match obs with | none => ["period_accepted"] | some _ => []) else []
+
+/-- correspondence for the constructor: the stored float is the exact quotient correctly rounded (`halfUlp = 0` for
+a number stored as given) -/
+def ctorAgrees (p : Period) (obs : Option Rat) (halfUlp : Rat) : Bool :=
+  match ctor p, obs with
+  | none, none => true
+  | some c, some o => absR (o - c) ≤ halfUlp
+  | _, _ => false
+
 inductive Verdict | exact | boundary | bad
   deriving Repr, DecidableEq
 
